@@ -391,6 +391,112 @@ def cached_interrupt(ctx, i):
     ctx.case({"cached-interrupt": auto, "b": type(backend).__name__}, True)
 
 
+def _with_backend(rng):
+    from hypergraph import DiskCache, InMemoryCache
+
+    if rng.random() < 0.5:
+        return InMemoryCache(), None
+    tmp = tempfile.mkdtemp(prefix="hgc09-", dir=os.path.join(core.VERIF, ".work"))
+    return DiskCache(tmp), tmp
+
+
+def _drop_backend(backend, tmp):
+    if tmp:
+        try:
+            backend._cache.close()
+        except Exception:  # noqa: BLE001
+            pass
+        shutil.rmtree(tmp, ignore_errors=True)
+
+
+def emit_names_in_identity(ctx, i):
+    """ONE function behind two cached nodes (in two graphs sharing the cache) that differ only in the ordering signal
+    they emit (different name, or none): an entry stored by one must not be served to the other - the stored result
+    carries the storing node's signal names, so the other node's waiters would never be released."""
+    from hypergraph import FunctionNode, Graph, SyncRunner
+
+    rng = ctx.rng
+
+    def f(x):
+        return ("f", x)
+
+    def w(aux):
+        return ("w", aux)
+
+    emits = rng.sample(["sa", "sb", None], 2)
+    graphs = []
+    for e in emits:
+        nodes = [FunctionNode(f, name="prod", output_name="o", emit=e, cache=True)]
+        nodes.append(FunctionNode(w, name="w", output_name="wo", wait_for=e) if e else FunctionNode(w, name="w", output_name="wo"))
+        graphs.append(Graph(nodes, name="ge"))
+    backend, tmp = _with_backend(rng)
+    cached, plain = SyncRunner(cache=backend), SyncRunner()
+    order = [0, 1, 0, 1] if rng.random() < 0.5 else [1, 0, 0, 1]
+    case = {"program": f"shared function, nodes differ in emit only: {emits}", "order": order, "backend": type(backend).__name__}
+    try:
+        for step, gi in enumerate(order):
+            inputs = {"x": "run:x", "aux": "run:aux"}
+            try:
+                rc = cached.run(graphs[gi], dict(inputs))
+                got = (rc.status.value, rc.values)
+            except Exception as e:  # noqa: BLE001
+                got = ("raised", repr(e)[:160])
+            ru = plain.run(graphs[gi], dict(inputs))
+            ctx.obs["cached_runs_compared"] += 1
+            ctx.obs["emit_identity_runs"] += 1
+            if got != (ru.status.value, ru.values):
+                ctx.violation("C09:cached-differs-from-uncached:emit-names", f"run {step} of the graph emitting {emits[gi]!r}: cached {got} vs uncached {(ru.status.value, ru.values)}", {**case, "step": step})
+                break
+    finally:
+        _drop_backend(backend, tmp)
+    ctx.case({"emit-identity": [str(e) for e in emits], "b": type(backend).__name__}, True)
+
+
+def container_arguments(ctx, i):
+    """Arguments that are different values although they hold the same members - list / tuple / set / frozenset, dicts
+    with the same items - each get their own entry; equal arguments of the same type hit."""
+    from hypergraph import FunctionNode, Graph, SyncRunner
+
+    rng = ctx.rng
+    calls = []
+
+    def f(x):
+        calls.append(x)
+        return (type(x).__name__, repr(sorted(x, key=repr)) if not isinstance(x, dict) else repr(sorted(x.items(), key=repr)))
+
+    members = rng.choice([[1, 2], ["a", "b", "c"], [(1, 2), (3, 4)], []])
+    forms = [list(members), tuple(members), set(members), frozenset(members)]
+    if all(isinstance(m, str) for m in members):
+        forms.append({m: None for m in members})
+    rng.shuffle(forms)
+    hist = forms + [copy.deepcopy(rng.choice(forms)) for _ in range(2)]
+    g = Graph([FunctionNode(f, name="f", output_name="o", cache=True)], name="gc")
+    backend, tmp = _with_backend(rng)
+    cached = SyncRunner(cache=backend)
+    case = {"program": "cached f(x) over container arguments", "history": [repr(h) for h in hist], "backend": type(backend).__name__}
+    seen = []
+    try:
+        for step, x in enumerate(hist):
+            n0 = len(calls)
+            rc = cached.run(g, {"x": x})
+            want = f(x)
+            calls.pop()
+            ctx.obs["cached_runs_compared"] += 1
+            ctx.obs["container_argument_runs"] += 1
+            invoked = len(calls) - n0
+            if rc.values.get("o") != want:
+                ctx.violation("C09:served-to-different-arguments:container-type", f"run {step} with x={x!r} ({type(x).__name__}) returned {rc.values.get('o')!r}; the function gives {want!r} (history {[repr(h) for h in hist[:step]]})", {**case, "step": step})
+                break
+            prior = any(type(p) is type(x) and p == x for p in seen)
+            if prior and invoked and type(backend).__name__ == "InMemoryCache":
+                ctx.violation("C09:invoked-again-while-retained:container", f"run {step}: x={x!r} was already computed and retained, yet the function was invoked again", {**case, "step": step})
+                break
+            seen.append(x)
+    finally:
+        _drop_backend(backend, tmp)
+    ctx.case({"containers": repr(members), "b": type(backend).__name__}, True)
+
+
 FAULTS = ["payload-bitflip", "payload-truncate-0", "payload-truncate-half", "payload-swapped", "payload-non-bytes", "payload-type-str", "payload-type-int", "payload-type-float", "payload-type-none", "payload-type-bytearray", "sig-bitflip", "sig-type", "sig-type-int", "sig-type-bytes", "sig-type-none", "sig-empty", "sig-non-ascii", "sig-short", "sig-missing", "payload-missing", "torn-fresh", "torn-overwrite"]
 
 
@@ -524,5 +630,9 @@ def run(ctx):
     for i in range(n):
         if i % 10 == 9:
             cached_interrupt(ctx, i)
+        elif i % 10 == 4:
+            emit_names_in_identity(ctx, i)
+        elif i % 10 == 6:
+            container_arguments(ctx, i)
         else:
             history(ctx, i, ["mem", "lru", "disk"][i % 3])
